@@ -124,6 +124,16 @@ def run(prog, chk):
                     r = C.base_local(f, t.lhs)
                     if r is not None and any(init is not None and blk + "->str" in q.no_casts(f.r(init)) for kind, _n, init in defs.get(r["id"], [])):
                         nul.append(t.node)
+                    else:
+                        # through a local alias of the text pointer (`char* const newStr = (char*)newData->str`): the pointer written through
+                        x_ = f.nodes[f.strip(t.lhs)]
+                        while x_["k"] in ("UnaryOperator", "ArraySubscriptExpr", "ParenExpr", "CStyleCastExpr", "ImplicitCastExpr") and x_["c"]:
+                            nx_ = f.strip(x_["c"][0])
+                            x_ = f.nodes[nx_] if nx_ != x_["i"] else f.nodes[x_["c"][0]]
+                        if x_["k"] == "DeclRefExpr" and x_["ref"].get("dk") == "local":
+                            ini_ = q.single_def(f, x_["ref"]["id"], defs)
+                            if ini_ is not None and (blk + "->str") in q.no_casts(f.r(ini_)):
+                                nul.append(t.node)
             # vsnprintf into the block with a size that includes the terminator also terminates it
             for c in q.calls(f):
                 if f.nodes[c].get("callee") in ("vsnprintf", "snprintf") and blk + "->str" in q.no_casts(f.r(c)):
@@ -190,6 +200,9 @@ def run(prog, chk):
                     un = b["succ"][0] if vnz else b["succ"][1]
                     ok = un is not None and f.edge_dominates((b["id"], un), f.node_pos(det2[0])) and all(
                         f.find_path((un, 0), {f.node_pos(r)}, avoid=q.pos_of(f, det2), after_src=False) is None for r in rets)
+            if not ok and rets:
+                strs = [r for r in rets if f.nodes[r]["c"] and re.search(r"(->|\.)str$", q.no_casts(q.xr(f, f.nodes[r]["c"][0])).strip("()"))]
+                ok = bool(strs) and len(strs) == len(rets) and all(_view_probed(f, r) for r in strs)
             if not ok and rets and not det2:
                 # the non-const overload may simply delegate to the const one on the same object
                 dl = []
@@ -836,6 +849,36 @@ def substr_window(prog, chk, rid):
         chk.ok(rid, f, "substr window equals the reference window for %d (length, start, count) triples" % n_ev, where, "evaluation of the index arithmetic", evals=n_ev)
 
 
+def _view_probed(f, r):
+    """is the text returned by `r` known terminated at length(): every path from the entry to the return runs over an edge on which
+    the probe `data->str[data->len]` was seen zero (however it is spelled: through a snapshot of the length, a bool local naming the
+    test) or passes a detach() call"""
+    pos = f.node_pos(r)
+    if pos is None:
+        return False
+    defs = q.local_defs(f)
+
+    def says_zero(node, truth):
+        subs = [x for x in [f.strip(node)] + list(f.desc(node)) if f.nodes[x]["k"] == "ArraySubscriptExpr" and
+                re.fullmatch(r"\(?(this->)?data->str\[(this->)?data->len\]\)?", q.no_casts(q.xr(f, x, defs)).strip())]
+        if not subs:
+            return False
+        vz = fin.eval_expr(f, node, {fin.key(f, x): 0 for x in subs})
+        vnz = fin.eval_expr(f, node, {fin.key(f, x): 65 for x in subs})
+        return vz is not None and vnz is not None and bool(vz) != bool(vnz) and bool(vz) == bool(truth)
+    cut = set()
+    for b_ in f.blocks.values():
+        if b_.get("cond") is None or len(b_["succ"]) != 2 or b_.get("tk") == "SwitchStmt":
+            continue
+        for s_ in b_["succ"]:
+            if s_ is not None and any(says_zero(n_, t_) for n_, t_ in fin.edge_atoms(f, b_, s_)):
+                cut.add((b_["id"], s_))
+    if not cut:
+        return False
+    det = q.pos_of(f, _detach_calls(f))
+    return fin.path_with_cuts(f, f.entry_pos(), pos, avoid=det, cut=cut, after_src=False) is None
+
+
 def cstring_view_probed(prog, chk, rid):
     """"Its C-string view is NUL-terminated at length()": blocks do not keep that by themselves (resize() on a fresh block, attached
     ranges), the conversion operators repair it lazily.  Whatever they return has been probed: the byte at length() was seen to be zero,
@@ -852,28 +895,11 @@ def cstring_view_probed(prog, chk, rid):
                 continue
             if not re.search(r"(->|\.)str$", q.no_casts(q.xr(f, n["c"][0])).strip("()")):
                 continue
-            # paths from the entry to this return that neither call detach() nor leave a probe over its zero edge
-            cut = set()
-            probes = 0
-            for b_ in f.blocks.values():
-                if b_.get("cond") is None or len(b_["succ"]) != 2 or b_.get("tk") == "SwitchStmt":
-                    continue
-                for truth, zero_succ in ((True, 1), (False, 0)):
-                    x_ = fin.nonzero_operand(f, b_["cond"], truth)
-                    if x_ is not None and re.fullmatch(r"(this->)?data->str\[(this->)?data->len\]", q.no_casts(q.xr(f, x_)).strip("()")):
-                        probes += 1
-                        nz = b_["succ"][0 if truth else 1]      # the edge on which the byte is known non-zero: only detach() helps there
-                        if nz is not None:
-                            cut.add((b_["id"], nz, "nz"))
-            # a path is fine when it passes detach, or when it passes a probe block (either edge: non-zero edges must still meet detach)
-            probe_blocks = set(b for b, _s, _k in cut)
-            nz_edges = set((b, s_) for b, s_, _k in cut)
-            # 1. a path that avoids every probe block and every detach
-            p1 = f.find_path(f.entry_pos(), {f.node_pos(i)}, avoid=det | set((b, len(f.blocks[b]["el"])) for b in probe_blocks), after_src=False)
-            # 2. a path over a non-zero edge that avoids detach
-            p2 = None
-            for b, s_ in nz_edges:
-                p2 = p2 or fin.path_with_cuts(f, (s_, 0), f.node_pos(i), avoid=det, after_src=False)
+            p1 = p2 = None
+            probes = 1
+            if not _view_probed(f, i):
+                p1 = f.find_path(f.entry_pos(), {f.node_pos(i)}, after_src=False)
+                probes = 0
             if p1 is None and p2 is None and probes:
                 chk.ok(rid, f, "the returned text was probed at length() (or detached)", f.where(i), "path search over the probe's edges", evals=3)
             else:
